@@ -46,6 +46,8 @@ type BV struct {
 	M map[string]BV
 	// numbers that came through a float32 are only known approximately
 	Approx bool
+	// the number is the negative zero of a Go float: conversions keep the sign
+	NegZero bool
 }
 
 func bvNum(r *big.Rat) BV { return BV{K: bNum, N: r} }
@@ -414,6 +416,9 @@ func checkArg(got interface{}, v BV, p pType) string {
 		if !ok || (f != want && !v.Approx) {
 			return bad("not the nearest float64, which is " + strconv.FormatFloat(want, 'g', -1, 64))
 		}
+		if f == 0 && v.N.Sign() == 0 && math.Signbit(f) != v.NegZero {
+			return bad("sign of zero changed")
+		}
 	case pFloat32:
 		f, ok := got.(float32)
 		want, _ := v.N.Float32()
@@ -429,6 +434,9 @@ func checkArg(got interface{}, v BV, p pType) string {
 		r, ok := ratFromDecimal(d)
 		if !ok || (r.Cmp(v.N) != 0 && !v.Approx) {
 			return bad("number changed")
+		}
+		if v.N.Sign() == 0 && d.Signbit() != v.NegZero {
+			return bad("sign of zero changed")
 		}
 	case pTime:
 		t, ok := got.(time.Time)
@@ -486,6 +494,9 @@ func matchesB(v BV, got interface{}) bool {
 		case *decimal.Big:
 			rr, ok := ratFromDecimal(x)
 			if !ok {
+				return false
+			}
+			if rr.Sign() == 0 && v.N.Sign() == 0 && x.Signbit() != v.NegZero {
 				return false
 			}
 			r = rr
